@@ -128,10 +128,11 @@ def parseDecl (prov dt kd : String) : Option PluginDecl := do
     else do pure (DtypeDecl.single (← parseRDtype dt))
   pure ⟨splitList prov ",", d, ← parseBool kd⟩
 
-/-- a saver-protocol run: outputs `k` (a good chunk of that start..) or `!Kind` -/
+/-- a saver-protocol run: outputs `start:stop` (an accepted chunk), `!` (rejected with ValueError) or `!P` (PluginGaveWrongOutput) -/
 def parseOuts (s : String) : Option (List (Except Err (Int × Int))) :=
   (splitList s ",").mapM fun t =>
-    if t.startsWith "!" then some (.error .valueError)
+    if t == "!P" then some (.error .pluginGaveWrongOutput)
+    else if t.startsWith "!" then some (.error .valueError)
     else match t.splitOn ":" with
       | [a, b] => do pure (.ok (← a.toInt?, ← b.toInt?))
       | _ => none
@@ -142,16 +143,9 @@ namespace Strax.Driver
 open Strax Strax.Contract Strax.Driver.C12
 
 def handleC12 : List String → Option String
-  | ["c12.strip", dt] => do
-    let dt ← parseRDtype dt
-    pure s!"ok {showDtype (stripTitles dt)}"
   | ["c12.chunk", decl, data, rc] => do
     let decl ← parseRDtype decl; let rc ← parseRawChunk rc; let data ← parseDataArg data rc.rows
     pure <| showExcept showCChunk (rawToCChunk decl data rc)
-  | ["c12.chunkold", decl, data, rc] => do
-    let decl ← parseRDtype decl; let rc ← parseRawChunk rc; let data ← parseDataArg data rc.rows
-    pure <| showExcept showCChunk
-      (chunkInitOld rc.dataType rc.kind rc.runId decl rc.start rc.stop data rc.subruns rc.superrun rc.target)
   | ["c12.pchunk", p, range, d, data, rows] => do
     let p ← parsePlugin p; let rows ← parseRows rows; let data ← parseDataArg data rows
     let (a, b) ← (← parseRange range)
@@ -186,9 +180,10 @@ def handleC12 : List String → Option String
       | none => .ok (some c.2)
     let (sv, out, e) := process check none outs {}
     let vis := if sv.visible then "stored" else "not-stored"
+    let cl := if sv.closed then 1 else 0
     pure <| match e with
-      | none => s!"ok {out.length} {vis} written={sv.written.length}"
-      | some e => s!"err {e.name} after {out.length} {vis} written={sv.written.length}"
+      | none => s!"ok {out.length} {vis} written={sv.written.length} closed={cl}"
+      | some e => s!"err {e.name} after {out.length} {vis} written={sv.written.length} closed={cl}"
   | _ => none
 where
   rawChunksToChunks' (rs : List RawChunk) : Except Err (List Chunk) := rs.mapM (·.mk')
